@@ -7,7 +7,7 @@ from . import asm, bounds, summ, sym
 from .sym import I, ZERO
 from .pipeline import AnalysisBroken
 
-NOINLINE = summ.InlineLib(only=lambda f: False)
+NOINLINE = summ.LOCAL_HELPERS
 TRANSFORMS = {
     # callee -> index of the arguments that are read as input arrays
     "fft_transform": [1, 2], "fft_transform_reverse": [1, 2], "fft": [1], "ifft": [1], "fftw_execute": [],
@@ -282,6 +282,21 @@ def _eval_int(t, env):
         while (i < hi) if code[1] == 0 else (i <= hi):
             i += step
         return i
+    if k == "op" and t[1] in ("&", "%", "/", ">>", "<<"):
+        a, b = _eval_int(t[2], env), _eval_int(t[3], env)
+        if a is None or b is None or (t[1] in ("%", "/") and b == 0):
+            return None
+        if t[1] == "&":
+            return a & b
+        if t[1] == ">>":
+            return a >> b
+        if t[1] == "<<":
+            return a << b
+        q = abs(a) // abs(b)
+        q = q if (a >= 0) == (b >= 0) else -q
+        return q if t[1] == "/" else a - q * b
+    if k == "cast":
+        return _eval_int(t[2], env)
     items = sym.poly_items(t)
     if items is None:
         return None
@@ -299,11 +314,70 @@ def _eval_int(t, env):
     return tot
 
 
+def quasi_affine(t, n):
+    """t as  slope*n + (a function of the residues of n modulo some constants) + constant:
+    -> (slope as a Fraction, set of moduli, bound on the constant part) or None.  Covers n, constants, sums, constant
+    multiples, x % c, x / c, x >> c, x << c, x & -2^c (== x - x % 2^c) and the end value of an earlier counted loop."""
+    from fractions import Fraction
+    if t == n:
+        return Fraction(1), set(), 0
+    k = t[0]
+    c = sym.const_value(t)
+    if c is not None:
+        return Fraction(0), set(), abs(c)
+    if k == "cast":
+        return quasi_affine(t[2], n)
+    if k == "op" and t[1] in ("%", "/", ">>", "<<", "&"):
+        q = quasi_affine(t[2], n)
+        cb = sym.const_value(t[3])
+        if q is None or cb is None:
+            return None
+        sl, mods, cst = q
+        if t[1] == "&":
+            m = -cb
+            if m <= 0 or m & (m - 1):
+                return None
+            return sl, mods | {m}, cst + m
+        if t[1] == "<<":
+            return sl * (1 << cb), mods, cst << cb
+        m = cb if t[1] in ("%", "/") else (1 << cb)
+        if m <= 0:
+            return None
+        if t[1] == "%":
+            return Fraction(0), mods | {m}, m
+        return sl / m, mods | {m}, cst // m + 1
+    if k == "call" and t[1] == "$loop_end":
+        lo, hi, step, code, _ = t[2]
+        ql, qh, st = quasi_affine(lo, n), quasi_affine(hi, n), sym.const_value(step)
+        if ql is None or qh is None or not st or st <= 0 or code[1] not in (0, 1):
+            return None
+        if ql[0] != 0 and ql[0] != qh[0]:
+            return None
+        return max(ql[0], qh[0]), ql[1] | qh[1] | {st}, ql[2] + qh[2] + st
+    items = sym.poly_items(t)
+    if items is None or k != "poly":
+        return None
+    sl, mods, cst = Fraction(0), set(), 0
+    for mono, coef in items:
+        if not mono:
+            cst += abs(coef)
+            continue
+        if len(mono) != 1:
+            return None
+        q = quasi_affine(mono[0], n)
+        if q is None:
+            return None
+        sl += coef * q[0]
+        mods |= q[1]
+        cst += abs(coef) * q[2]
+    return sl, mods, cst
+
+
 def cover_1d(terms, n, nmin=1):
     """terms: [(loop descriptor, index term, sign)], each meaning  sum over the loop of sign * f(index).
     Decides whether the indices are exactly [0, n), once each and with one sign, for EVERY n >= 1.
-    Applies to loops with a positive constant step, bound n + const (or a constant), start a constant or the end value of an
-    earlier loop, and index = loop variable + const: then the covered set depends on n through floor/residue of (n + const)
+    Applies to loops with a positive constant step, bounds of the form n + const, a constant, n rounded down to a multiple of a
+    constant (n & -4, n - n % 4, (n / 4) * 4) or the end value of an earlier loop, and index = loop variable + const: then the covered set depends on n through floor/residue of (n + const)
     by the steps only, so the statement is periodic in n with period L = lcm(steps) beyond D = max |const|; it is evaluated
     on n = 1 .. D + 2L + 2 by interpreting the loop descriptors (no code is run).
     -> ("proved" | "refuted" | "unknown", detail)"""
@@ -314,10 +388,13 @@ def cover_1d(terms, n, nmin=1):
         if s is None or s <= 0 or lp["cmp"] not in ("<", "<="):
             return "unknown", "loop at line %s is not an ascending constant-step loop" % lp.get("l")
         L = L * s // gcd(L, s)
-        lin = sym.linear_in(lp["hi"], n)
-        if lin is None or lin[0] not in (I(0), I(1)) or sym.const_value(lin[1]) is None:
-            return "unknown", "bound %s is not n + const" % sym.show(lp["hi"])
-        D = max(D, abs(sym.const_value(lin[1])))
+        for bound in (lp["hi"], lp["lo"]):
+            qa = quasi_affine(bound, n)
+            if qa is None or qa[0] not in (0, 1):
+                return "unknown", "bound %s is not n (rounded down to a multiple of a constant) plus a constant" % sym.show(bound)
+            for m in qa[1]:
+                L = L * m // gcd(L, m)
+            D = max(D, qa[2])
         off = sym.const_value(sym.sub(g, lp["var"]))
         if off is None:
             return "unknown", "index %s is not the loop variable plus a constant" % sym.show(g)
